@@ -568,6 +568,12 @@ class Interp(object):
     if isinstance(a, (PyObj, Model)) or isinstance(b, (PyObj, Model)):
       if hasattr(a, 'py___eq__'):
         return a.py___eq__(self, b)
+      o = b if isinstance(a, (PyObj, Model)) else a
+      mdl = a if isinstance(a, (PyObj, Model)) else b
+      if isinstance(mdl, Model) and (is_z3(o) or is_num(o) or isinstance(o, (str, tuple))):
+        # a model without an equality contract compared with a plain value: refusing is better
+        # than silently answering by identity
+        raise EngineError("== between model %s and a plain value (no equality contract)" % type(mdl).__name__)
       return a is b
     return a == b
 
